@@ -637,7 +637,7 @@ ssize_t write(int fd, const void* buf, size_t n) {
   REALFN(fnptr<ssize_t(int, const void*, size_t)>, "write");
   if (active() && fd > 2 && fd != g.trace_fd) {
     std::string p = fd_path(fd);
-    if (starts_with(p, g.root)) {
+    if (!g.root.empty() && starts_with(p, g.root)) {
       Json::Value e;
       e["ev"] = "write";
       e["path"] = rel_to_root(p);
